@@ -69,7 +69,12 @@ const (
 )
 
 // Run: drv_contracts -out trace.ndjson [-deposits N] [-cases K] [-l1steps N] [-envs E] [-parts bridge,l1]
-func Run(args []string) error {
+func Run(args []string) (err error) {
+	defer func() {
+		if r := recover(); r != nil {
+			err = fmt.Errorf("panic: %v", r)
+		}
+	}()
 	fs := flag.NewFlagSet("contracts", flag.ContinueOnError)
 	out := fs.String("out", "", "trace ndjson")
 	nDep := fs.Int("deposits", 12, "deposits sent to the bridge contract (over all bridge environments)")
@@ -129,14 +134,15 @@ type ethClient struct {
 }
 
 type world struct {
-	ctx  context.Context
-	be   *simulated.Backend
-	cl   *ethClient
-	dep  *bind.TransactOpts // deployer, admin of the proxy (cannot call through it)
-	user *bind.TransactOpts // sender of every step
-	rng  *rand.Rand
-	w    *tr.W
-	dir  string
+	ctx   context.Context
+	be    *simulated.Backend
+	cl    *ethClient
+	dep   *bind.TransactOpts // deployer, admin of the proxy (cannot call through it)
+	user  *bind.TransactOpts // sender of every step
+	rng   *rand.Rand
+	w     *tr.W
+	dir   string
+	nonce uint64 // next nonce of user
 
 	netID      uint32
 	bridgeAddr common.Address
@@ -191,8 +197,49 @@ func (o *world) close() {
 	o.be.Close()
 }
 
-// mined waits for nothing (Commit is synchronous) and requires that every transaction succeeded.
+// pooled waits until the pool has promoted the account's transactions up to nonce (the simulated backend adds
+// transactions asynchronously; a block sealed before the promotion would miss them, and the pending nonce would lag).
+func (o *world) pooled(from common.Address, nonce uint64) error {
+	deadline := time.Now().Add(20 * time.Second)
+	for {
+		n, err := o.cl.PendingNonceAt(o.ctx, from)
+		if err != nil {
+			return err
+		}
+		if n > nonce {
+			return nil
+		}
+		if time.Now().After(deadline) {
+			return fmt.Errorf("transaction with nonce %d of %s never became pending", nonce, from)
+		}
+		time.Sleep(100 * time.Microsecond)
+	}
+}
+
+// adjustTime seals an empty block with a later timestamp.  The backend refuses while the pool still lists the
+// transactions of the block sealed just before (its reset runs in the background): retry, the refusal has no effect.
+func (o *world) adjustTime(d time.Duration) error {
+	deadline := time.Now().Add(20 * time.Second)
+	for {
+		err := o.be.AdjustTime(d)
+		if err == nil || !strings.Contains(err.Error(), "non-empty block") || time.Now().After(deadline) {
+			return err
+		}
+		time.Sleep(200 * time.Microsecond)
+	}
+}
+
+// mined seals a block and requires that every given transaction is in it and succeeded.
 func (o *world) mined(what string, txs ...*types.Transaction) (*types.Header, []*types.Receipt, error) {
+	for _, tx := range txs {
+		from, err := types.Sender(types.LatestSignerForChainID(big.NewInt(chainID)), tx)
+		if err != nil {
+			return nil, nil, err
+		}
+		if err := o.pooled(from, tx.Nonce()); err != nil {
+			return nil, nil, fmt.Errorf("%s: %w", what, err)
+		}
+	}
 	o.be.Commit()
 	var rs []*types.Receipt
 	for _, tx := range txs {
@@ -290,10 +337,20 @@ func (o *world) deploy(withBridge bool, netID uint32) error {
 	return nil
 }
 
+// txOpts: the user's transaction options with an explicit nonce (the pool adds transactions asynchronously, so the
+// pending nonce it reports can lag behind; the previous transaction is awaited first so that this one is not parked in
+// the pool's queue) and a fixed gas limit (no estimation against a cached pending block).
 func (o *world) txOpts(value *big.Int) *bind.TransactOpts {
 	c := *o.user
 	c.Value = value
 	c.GasLimit = txGas
+	if o.nonce > 0 {
+		if err := o.pooled(o.user.From, o.nonce-1); err != nil {
+			panic(err) // reported as a driver problem by the deferred handler in Run
+		}
+	}
+	c.Nonce = new(big.Int).SetUint64(o.nonce)
+	o.nonce++
 	return &c
 }
 
@@ -623,7 +680,7 @@ func runBridgeEnv(w *tr.W, rng *rand.Rand, dir string, t int, netID uint32, nDep
 	sent := 0
 	for sent < nDep {
 		if rng.Intn(3) == 0 { // sparse block numbers, varying timestamps
-			if err := o.be.AdjustTime(time.Duration(1+rng.Intn(5000)) * time.Second); err != nil {
+			if err := o.adjustTime(time.Duration(1+rng.Intn(5000)) * time.Second); err != nil {
 				return fmt.Errorf("AdjustTime: %w", err)
 			}
 		}
@@ -837,7 +894,7 @@ func runL1Env(w *tr.W, rng *rand.Rand, dir string, t, nSteps int) error {
 	done := 0
 	for done < nSteps {
 		if rng.Intn(3) == 0 {
-			if err := o.be.AdjustTime(time.Duration(1+rng.Intn(5000)) * time.Second); err != nil {
+			if err := o.adjustTime(time.Duration(1+rng.Intn(5000)) * time.Second); err != nil {
 				return fmt.Errorf("AdjustTime: %w", err)
 			}
 		}
